@@ -34,7 +34,7 @@ import (
 // is C02's obligation); helper functions are deterministic in their argument bytes.
 
 func init() {
-	register(&Rule{ID: "R13.3", Props: []string{"C13", "C16", "C01"}, Floor: 42,
+	register(&Rule{ID: "R13.3", Props: []string{"C13", "C16", "C01", "C05", "C17"}, Floor: 42,
 		Doc: "probe/parser agreement per wire type: the success condition of the typed decoder ParseValue dispatches to refutes every rejection guard of the DecodeTypeSize arm, and both report the same size (canonical read positions, linear entailment)",
 		Run: runR13_3})
 }
@@ -1356,6 +1356,73 @@ func runR13_3(c *Ctx, r *R) {
 		if nD == 0 {
 			r.Unk(keyA, d.Pos(), "no success exit of %s is reachable for type %s on a non-empty input (decoder/dispatch mismatch or analysis imprecision)", d.Name(), tn)
 			continue
+		}
+		// the converse, for the structural guards: where the probe accepts, the decoder does not reject on a guard
+		// that only talks about lengths and byte counts (`end <= 0` instead of `end < 0` rejects the value that
+		// exactly fills the input - the empty string as a list element or first field). Guards on the decoded value
+		// (range checks of the narrower integer types, the string terminator) are the decoder's own and are skipped.
+		structural := func(as []gAtom, probeSyms map[int]bool) bool {
+			if len(as) == 0 {
+				return false
+			}
+			for _, a := range as {
+				hasLen := false
+				for _, id := range a.l.vars() {
+					n := an.g.name(id)
+					switch {
+					case n == "len(b)":
+						hasLen = true
+					case strings.Contains(n, "decodeType(") || probeSyms[id]:
+						// the type byte's count, or a size / count the probe read itself from the same bytes
+					default:
+						return false
+					}
+				}
+				if !hasLen {
+					return false // a test of a byte count alone: different varint readers are related one way only
+				}
+			}
+			return true
+		}
+		for _, pe := range pExits {
+			if !pe.ok {
+				continue
+			}
+			fp := base.clone()
+			for _, a := range pe.conds {
+				fp.add(a)
+			}
+			fp.saturate()
+			if fp.unsat() {
+				continue
+			}
+			probeSyms := map[int]bool{}
+			for _, a := range pe.conds {
+				for _, id := range a.l.vars() {
+					probeSyms[id] = true
+				}
+			}
+			for _, de := range dExits {
+				if de.ok || !structural(de.final, probeSyms) {
+					continue
+				}
+				g := fp.clone()
+				for _, a := range de.conds {
+					g.add(a)
+				}
+				g.saturate()
+				if g.unsat() {
+					continue
+				}
+				var fs []string
+				for _, a := range de.final {
+					fs = append(fs, an.atomStr(a))
+				}
+				problemsA = append(problemsA, fmt.Sprintf("the probe accepts (exit at %s) but %s can still take its error exit at %s, guarded by {%s}: a value that the size probe delimits is rejected by its decoder", c.pos(pe.ret.Pos()), d.Name(), c.pos(de.ret.Pos()), strings.Join(fs, "; ")))
+				if posA == 0 {
+					posA = de.ret.Pos()
+				}
+			}
 		}
 		if posA == 0 {
 			posA = probe.Pos()
